@@ -37,32 +37,67 @@ pub enum AbiK {
     Rust,
     C,
     CUnwind,
-    System,
-    SysV64,
+    Cdecl,
+    CdeclUnwind,
+    Stdcall,
+    StdcallUnwind,
+    Fastcall,
+    FastcallUnwind,
+    Aapcs,
+    AapcsUnwind,
+    Win64,
     Win64Unwind,
+    SysV64,
+    SysV64Unwind,
+    System,
+    SystemUnwind,
     Vectorcall,
 }
 
-pub const ALL_ABIS: [AbiK; 7] = [
+/// Every ABI the reflection IR can represent (both unwind flavours), plus one that it keeps as a free-form string.
+pub const ALL_ABIS: [AbiK; 18] = [
     AbiK::Rust,
     AbiK::C,
     AbiK::CUnwind,
-    AbiK::System,
-    AbiK::SysV64,
+    AbiK::Cdecl,
+    AbiK::CdeclUnwind,
+    AbiK::Stdcall,
+    AbiK::StdcallUnwind,
+    AbiK::Fastcall,
+    AbiK::FastcallUnwind,
+    AbiK::Aapcs,
+    AbiK::AapcsUnwind,
+    AbiK::Win64,
     AbiK::Win64Unwind,
+    AbiK::SysV64,
+    AbiK::SysV64Unwind,
+    AbiK::System,
+    AbiK::SystemUnwind,
     AbiK::Vectorcall,
 ];
 
 impl AbiK {
-    /// What Rust source spells inside `extern "..."` (None: plain `fn`).
+    /// What Rust source spells inside `extern "..."` (None: plain `fn`); written from the Rust reference
+    /// ("External blocks / ABI"), independently of the implementation's table.
     pub fn source(self) -> Option<&'static str> {
         match self {
             AbiK::Rust => None,
             AbiK::C => Some("C"),
             AbiK::CUnwind => Some("C-unwind"),
-            AbiK::System => Some("system"),
-            AbiK::SysV64 => Some("sysv64"),
+            AbiK::Cdecl => Some("cdecl"),
+            AbiK::CdeclUnwind => Some("cdecl-unwind"),
+            AbiK::Stdcall => Some("stdcall"),
+            AbiK::StdcallUnwind => Some("stdcall-unwind"),
+            AbiK::Fastcall => Some("fastcall"),
+            AbiK::FastcallUnwind => Some("fastcall-unwind"),
+            AbiK::Aapcs => Some("aapcs"),
+            AbiK::AapcsUnwind => Some("aapcs-unwind"),
+            AbiK::Win64 => Some("win64"),
             AbiK::Win64Unwind => Some("win64-unwind"),
+            AbiK::SysV64 => Some("sysv64"),
+            AbiK::SysV64Unwind => Some("sysv64-unwind"),
+            AbiK::System => Some("system"),
+            AbiK::SystemUnwind => Some("system-unwind"),
             AbiK::Vectorcall => Some("vectorcall"),
         }
     }
@@ -71,9 +106,20 @@ impl AbiK {
             AbiK::Rust => Abi::Rust,
             AbiK::C => Abi::C { unwind: false },
             AbiK::CUnwind => Abi::C { unwind: true },
-            AbiK::System => Abi::System { unwind: false },
-            AbiK::SysV64 => Abi::SysV64 { unwind: false },
+            AbiK::Cdecl => Abi::Cdecl { unwind: false },
+            AbiK::CdeclUnwind => Abi::Cdecl { unwind: true },
+            AbiK::Stdcall => Abi::Stdcall { unwind: false },
+            AbiK::StdcallUnwind => Abi::Stdcall { unwind: true },
+            AbiK::Fastcall => Abi::Fastcall { unwind: false },
+            AbiK::FastcallUnwind => Abi::Fastcall { unwind: true },
+            AbiK::Aapcs => Abi::Aapcs { unwind: false },
+            AbiK::AapcsUnwind => Abi::Aapcs { unwind: true },
+            AbiK::Win64 => Abi::Win64 { unwind: false },
             AbiK::Win64Unwind => Abi::Win64 { unwind: true },
+            AbiK::SysV64 => Abi::SysV64 { unwind: false },
+            AbiK::SysV64Unwind => Abi::SysV64 { unwind: true },
+            AbiK::System => Abi::System { unwind: false },
+            AbiK::SystemUnwind => Abi::System { unwind: true },
             AbiK::Vectorcall => Abi::Other("vectorcall".to_string()),
         }
     }
